@@ -332,8 +332,8 @@ func TestFindings(t *testing.T) {
 }
 
 func TestRandom(t *testing.T) {
-	chkA.Rapid(t, harness.Pick(5000, 30000))
-	chkB.Rapid(t, harness.Pick(40, 400))
+	chkA.Rapid(t, harness.Pick(5000, 200000))
+	chkB.Rapid(t, harness.Pick(40, 1500))
 }
 
 func small(fc uint8, k int) spec.Req {
